@@ -538,6 +538,30 @@ func ruleElectionIDStores(c *Ctx) {
 		}
 		c.check(has, rule, fi.Name, "stores the announced id as the client's current one", c.P.pos(fi.Decl.Pos()), want, fmt.Sprintf("%s does not store Uint128{Low: low, High: high} into the client's currentElectionID (stores: %v)", t[1], sig))
 		info := fi.Pkg.TypesInfo
+		// … on every call: the store is a top-level statement of the function and nothing before it can leave
+		// the function (a store made only when the new id is not lower leaves later operations stamped with an
+		// id that is no longer the most recently set one)
+		// (decided on the paths of the function, so that a helper's own return inside an inline frame is not an exit)
+		evStore := func(n ast.Node) []Event {
+			var out []Event
+			inspectNoFuncLit(n, func(m ast.Node) bool {
+				if as, ok := m.(*ast.AssignStmt); ok && len(as.Lhs) == 1 {
+					if se, ok := ast.Unparen(as.Lhs[0]).(*ast.SelectorExpr); ok && se.Sel.Name == "currentElectionID" {
+						out = append(out, Event{Kind: "store-current", Node: as})
+					}
+				}
+				return true
+			})
+			return out
+		}
+		spaths, spe := enumFunc(fi, evStore, nil)
+		uncond := !spe.overflow && len(spe.unsup) == 0 && len(spaths) > 0
+		for _, p := range spaths {
+			if p.End != "panic" && !p.has("store-current") {
+				uncond = false
+			}
+		}
+		c.check(uncond, rule, fi.Name, "the store is unconditional", c.P.pos(fi.Decl.Pos()), "top-level assignment, no earlier exit", t[1]+" records the announced id only on some paths (inside a condition, or after a possible early return): operations queued afterwards can be stamped with an id that is not the one most recently set")
 		if t[1] == "UpdateElectionID" {
 			// announces the same id
 			ok := false
